@@ -182,6 +182,22 @@ var c02Templates = []sim.Template{
 		}
 		return sc
 	}},
+	{Name: "sms-gateway-down-during-victim-login", F: func(s *sim.Sim) []*sim.Action {
+		// an unfinished own SMS login, then — outside the resend limit — the victim's password while
+		// the SMS gateway fails, then the code from the attacker's own phone
+		if !s.Cfg.Has2FA("sms") || !s.Cfg.Has("auth") {
+			return nil
+		}
+		x := findAcct(s, func(u *world.User) bool { return u.SMSPhone != "" })
+		v := findAcct(s, func(u *world.User) bool { return u.SMSPhone != "" }, x)
+		if x < 0 || v < 0 {
+			return nil
+		}
+		b := s.R.Intn(len(s.Br))
+		gap := []string{"11s", "1m0s", "9s"}[s.R.Intn(3)]
+		return []*sim.Action{act("login", b, x, "ok"), act("advance", b, -9, "", "d", gap), act("faultnext", b, -9, "", "op", "sms"), act("login", b, v, "ok"),
+			act("sms_validate", b, -9, "ownsms", "own", fmt.Sprint(x)), act("sms_validate", b, -9, "lastsms")}
+	}},
 	{Name: "victim-first-then-own", F: func(s *sim.Sim) []*sim.Action {
 		if !s.Cfg.Has2FA("sms") || !s.Cfg.Has("auth") {
 			return nil
